@@ -627,7 +627,7 @@ func init() {
 			bad = 0
 		}
 		b := c.g.Spend(ops[1:], cs[1:], []refchain.TxOut{c.g.OutTrue(cs[1].Value - 7)}, 1, 0, nil, bad)
-		vouch(a.TxID())
+		vouch(a.WTxID())
 		txs := []*refchain.Tx{a, b}
 		if c.r.Bool() { // more unvouched transactions behind
 			if o3, c3 := c.take(1); o3 != nil {
@@ -1210,7 +1210,7 @@ func Child(prop string, seed int64, tier string, cfgName string, stateFile strin
 	g := s.G
 	chain.TrustedTxChecker = func(tx *btc.Tx) bool {
 		var h refchain.Hash
-		copy(h[:], tx.Hash.Hash[:])
+		copy(h[:], tx.WTxID().Hash[:]) // by wtxid, as the client's checker does: a witness that differs is not what was verified
 		vouchMu.Lock()
 		defer vouchMu.Unlock()
 		return vouched[h]
